@@ -4,6 +4,8 @@ import Winter.Gen.Prelude
 import Winter.Gen.F64
 import Winter.Gen.F62
 import Winter.Gen.F128
+import Winter.Gen.F62Inv
+import Winter.Gen.F128Inv
 import Winter.Gen.RealFft
 import Winter.Gen.Mds12
 import Winter.Gen.Mds8
